@@ -1,10 +1,15 @@
 (* Driver of the extracted pool/engine model (coq/Model/Pool.v) for property C05.
 
    case:  run|guns <cancel> <pool> [<pool> ...]          (see harness/cmd/hC05/main.go)
-   obs:   R=<nil|ctx|f.<cause>|hang> W=<0|1> G=<0|1> K=<n|-> N=<n> C=<created> L=<closed> T=<tokens>
+   obs:   R=<nil|ctx|f.<cause>|hang> W=<0|1> G=<0|1> K=<n|-> N=<n> Q=<..> A=<..> C=<created> L=<closed> T=<tokens>
           K = Provider.Run / Aggregator.Run / Gun.Shoot calls of this run that had not returned when Engine.Wait
               returned (- when it did not return); the model's K is what [outstanding_at_wait] says of the history
           N = Provider.Run + Aggregator.Run calls made; the model's N is [total_comp_runs] of the final state
+          Q = per pool what Provider.Run returned, A = per pool number of Shoot calls: predicted by the model of the
+              grpc/json provider's read loop (Model/GrpcJsonStart.v, [gj_start]) for gj-* pools that run to their end
+              undisturbed, echoed otherwise
+   A <p>.src token (the ammo file handed its broken element to the grpc/json provider) counts as a failure of that
+   provider when the specification [gj_spec_fails] says this configuration has to report it.
 
    The history tokens (the order in which the REAL await loops, pool fronts and Engine.Run
    took their steps, read from the engine's own log) are turned into the model's events and
@@ -63,6 +68,7 @@ let event_of_token (t : string) : gevent option * (int * cause) option =
       (Some (GvPool (nat_of_int pi, PvPre o')), f)
   | [ p; w ] when String.length w > 1 && w.[0] = '!' ->
       (None, Some (int_of_string p, cause_of (String.sub w 1 (String.length w - 1))))
+  | [ _; "src" ] -> (None, None)
   | [ p; "sf" ] -> (Some (GvPool (nat_of_int (int_of_string p), PvSchedFin)), None)
   | [ p; "fc" ] -> (Some (GvPool (nat_of_int (int_of_string p), PvFrontCtx)), None)
   | [ p; "fz" ] -> (Some (GvPool (nat_of_int (int_of_string p), PvFrontClosed)), None)
@@ -90,6 +96,24 @@ let field (obs : string list) (k : string) : string =
   | None -> ""
 
 let rec pair_list = function [] -> [] | (a, b) :: r -> (nat_of_int a, b) :: pair_list r
+
+(* ---- pools whose provider is the real grpc/json provider: gj-<poison>-<passes>-<limit>-<coe>-<maxsize> ---- *)
+type gj = { g_cf : jconf; g_file : jfile; g_unlimited_schedule : bool; g_instances : int }
+
+let pool_fields (spec : string) : string array = Array.of_list (String.split_on_char ',' spec)
+
+let pool_fault (spec : string) : string = let f = pool_fields spec in if Array.length f > 4 then f.(4) else "none"
+
+let gj_of_pool (spec : string) : gj option =
+  let f = pool_fields spec in
+  if Array.length f < 8 then None
+  else match String.split_on_char '-' f.(4) with
+    | [ "gj"; poison; passes; limit; coe; _maxsize ] ->
+        let po = (match poison with "json" -> PoJson | "io" | "long" -> PoRead | _ -> PoNone) in
+        let k = nat_of_int (int_of_string f.(5)) and m = nat_of_int (max 0 (int_of_string f.(2))) in
+        Some { g_cf = { j_limit = nat_of_int (int_of_string limit); j_passes = nat_of_int (int_of_string passes); j_coe = (coe = "1") };
+               g_file = gj_file k m po; g_unlimited_schedule = (f.(3) = "-1"); g_instances = int_of_string f.(0) }
+    | _ -> None
 
 let predict (c : string) (obs : string) : string * string * bool =
   match split_blank c with
@@ -141,6 +165,30 @@ let predict (c : string) (obs : string) : string * string * bool =
       let run_candidate k =
         let events = if k < 0 then events_with_cancel_at (-1) else events_with_cancel_at k in
         (events, grun current cfg g0 events) in
+      (* Q / A: the grpc/json pools that run to their end undisturbed (the caller does not cancel during the run,
+         no other pool can fail and cancel the engine's context, only the provider ends the pool) are predicted by
+         the model of the provider's read loop; everything else is echoed *)
+      let specs = Array.of_list pool_specs in
+      let undisturbed p =
+        (cancel = "none" || cancel = "after") &&
+        (let ok = ref true in
+         Array.iteri (fun q sp -> if q <> p && pool_fault sp <> "none" then ok := false) specs; !ok) in
+      let obs_list k = (match field of_ k with "" -> [||] | s -> Array.of_list (String.split_on_char ',' s)) in
+      let q_obs = obs_list "Q" and a_obs = obs_list "A" in
+      let gj_pred p =
+        match gj_of_pool specs.(p) with
+        | Some g when undisturbed p && g.g_unlimited_schedule && g.g_instances >= 1
+                      && (int_of_nat g.g_cf.j_passes <> 0 || int_of_nat g.g_cf.j_limit <> 0) ->
+            let (r, d) = gj_start (gj_fuel g.g_cf) g.g_cf g.g_file None in
+            (match r with
+             | JNil -> Some ("nil", Some (int_of_nat d))
+             | JOutOfFuel | JCancelled -> None
+             | _ -> Some ("f.prov", None))
+        | _ -> None in
+      let q_pred = String.concat "," (List.init npools (fun p ->
+        match gj_pred p with Some (q, _) -> q | None -> if p < Array.length q_obs then q_obs.(p) else "-")) in
+      let a_pred = String.concat "," (List.init npools (fun p ->
+        match gj_pred p with Some (_, Some d) -> string_of_int d | _ -> if p < Array.length a_obs then a_obs.(p) else "-")) in
       let describe (events, res) =
         match res with
         | None ->
@@ -149,9 +197,9 @@ let predict (c : string) (obs : string) : string * string * bool =
         | Some g ->
             let r = (match g.eng with None -> "hang" | Some er -> res_name er.er_res) in
             let k = (match outstanding_at_wait current cfg g0 events with Some k -> string_of_int (int_of_nat k) | None -> "-") in
-            (true, r, Printf.sprintf "R=%s W=%s G=%s K=%s N=%d C=%d L=%d T=%s" r
+            (true, r, Printf.sprintf "R=%s W=%s G=%s K=%s N=%d Q=%s A=%s C=%d L=%d T=%s" r
               (field_of_bool (wait_returns g)) (field_of_bool (terminal g && not (any_panicked g)))
-              k (int_of_nat (total_comp_runs g))
+              k (int_of_nat (total_comp_runs g)) q_pred a_pred
               (int_of_nat (total_created g)) (int_of_nat (total_closed g)) (String.concat "," toks)) in
       let results = List.map (fun k -> describe (run_candidate k)) candidates in
       let pred =
@@ -162,19 +210,44 @@ let predict (c : string) (obs : string) : string * string * bool =
                    | None -> (match results with (_, _, p) :: _ -> p | [] -> "no-candidate")) in
       (* inputs of the specification, read off the history up to the moment Run returned *)
       let before = Array.to_list (Array.sub arr 0 ret_idx) in
-      let fails = List.filter_map (fun (_, (_, f)) -> f) before in
+      (* the ammo file of a grpc/json pool handed its broken element over: a failure of that provider when the
+         specification says this configuration has to report it (and nothing but the provider can end the pool) *)
+      let src_fail (t : string) : (int * cause) option =
+        match String.split_on_char '.' t with
+        | [ p; "src" ] ->
+            let pi = int_of_string p in
+            (match (if pi < npools then gj_of_pool specs.(pi) else None) with
+             | Some g when (cancel = "none" || cancel = "after") && g.g_unlimited_schedule && gj_spec_fails g.g_cf g.g_file ->
+                 Some (pi, CProv)
+             | _ -> None)
+        | _ -> None in
+      let fails = List.filter_map (fun (t, (_, f)) -> match f with Some _ -> f | None -> src_fail t) before in
       (* Engine.Run had received a nil result from every pool when it returned *)
       let has t = List.exists (fun (x, _) -> x = t) before in
       let all_nil = List.for_all (fun p -> has (Printf.sprintf "%d.fz" p) && has (Printf.sprintf "E.%d" p))
                       (List.init npools (fun p -> p)) in
       let sure_cancelled = i0 >= 0 && d_idx >= 0 && i1 < d_idx in
       let sure_not_cancelled = i0 < 0 || i0 > ret_idx in
-      let all_fails = List.filter_map (fun (_, f) -> f) parsed in
+      let all_fails = List.filter_map (fun (_, f) -> f) parsed @ List.filter_map src_fail toks in
       let o = { o_res = (match res_of_string r_obs with Some r -> r | None -> RNil);
                 o_wait = (field of_ "W" = "1"); o_settled = (field of_ "G" = "1");
                 o_created = nat_of_int (try int_of_string (field of_ "C") with _ -> 0);
                 o_closed = nat_of_int (try int_of_string (field of_ "L") with _ -> 0) } in
       let fl = pair_list fails in
+      (* "succeeds only if every pool ran out of ammo or schedule": a successful run whose grpc/json pool could only
+         end by running out of ammo must have shot everything file and configuration ask for (spec side:
+         [gj_spec_delivered], no failure to report) *)
+      let short_pool =
+        if r_obs <> "nil" then None
+        else List.find_map (fun p ->
+          match gj_of_pool specs.(p) with
+          | Some g when undisturbed p && g.g_unlimited_schedule && g.g_instances >= 1
+                        && (int_of_nat g.g_cf.j_passes <> 0 || int_of_nat g.g_cf.j_limit <> 0)
+                        && not (gj_spec_fails g.g_cf g.g_file) ->
+              let want = int_of_nat (gj_spec_delivered g.g_cf g.g_file) in
+              let shot = (try int_of_string a_obs.(p) with _ -> -1) in
+              if shot <> want then Some (p, shot, want) else None
+          | _ -> None) (List.init npools (fun p -> p)) in
       let verdict =
         if kind = "guns" then begin
           if spec_guns_b o then "ok"
@@ -196,13 +269,19 @@ let predict (c : string) (obs : string) : string * string * bool =
                      (not sure_cancelled && spec_outcome_b fl false all_nil o.o_res)) then begin
           let cancelled = not sure_not_cancelled in
           let fs = String.concat "+" (List.sort_uniq compare (List.map (fun (_, c) -> cause_name c) fails)) in
+          let from_src = List.exists (fun (t, _) -> src_fail t <> None) before in
           match o.o_res with
           | RNil -> if not all_nil then "BAD:outcome:nil-before-natural-end"
-                    else "BAD:outcome:nil-despite-failure:" ^ fs
+                    else "BAD:outcome:nil-despite-failure:" ^ fs ^ (if from_src then ":grpcjson-provider-swallowed-a-broken-ammo-file" else "")
           | RCtx -> "BAD:outcome:ctx-error-without-cancel"
           | RFail c -> if cancelled then "BAD:outcome:failure-returned-after-cancel:" ^ cause_name c
                        else "BAD:outcome:cause-not-among-failures:" ^ cause_name c ^ ":occurred=" ^ fs
         end
+        else if short_pool <> None then
+          (match short_pool with
+           | Some (p, shot, want) ->
+               Printf.sprintf "BAD:outcome:nil-before-out-of-ammo:grpcjson-provider pool=%d shots=%d file-and-config-ask-for=%d" p shot want
+           | None -> "ok")
         else if not o.o_wait then begin
           let pre = List.filter_map (fun t -> match String.split_on_char '.' t with
             | [ _; "pre"; o ] when o <> "ok" -> Some ("pre." ^ o) | _ -> None) toks in
